@@ -20,18 +20,26 @@ PID = 'C09'
 LEAN_MODULES = ['ThermoVerif.Props.C09', 'ThermoVerif.Props.C09Store', 'ThermoVerif.Props.C09Array',
                 'ThermoVerif.Props.C09Array2', 'ThermoVerif.Props.C09Array3']
 RULE = ('operation histories on shared SparseVector / SparseLogicalVector / SparseArray objects; values are dyadic '
-        'rationals (exact in binary64), divisors ±2^j; every run enumerates the operand-kind × operator × '
-        'shape-relation grid completely (vector, logical vector and array targets, binary / in-place / reflected, '
-        'indexing forms × value shapes, reductions × axis × keepdims, read-only targets; and the all-zero-operand grid: '
-        'target kind × operand kind × operator × shape relation × which side holds no entry, the empty side built from zeros '
-        'or emptied by cancellation / `*= 0` / `x -= x` / clear() / `x[:] = 0` in rotation), then draws random histories '
-        'of ≤30 operations generated adaptively on the real objects; the thorough tier is exhaustive for pairs of '
+        'rationals (exact in binary64), divisors ±2^j; the cases of a run depend on (tier, seed) only - never on the worker '
+        'index, the number of workers or the machine: one grid list built from Random(seed) and dealt out round-robin (the '
+        'evidence lists executed / expected / missing cells): operand-kind × operator × shape-relation (vector, logical '
+        'vector and array targets, binary / in-place / reflected), indexing forms × value shapes, reductions × axis × keepdims, '
+        'read-only targets, and the all-zero-operand grid (target kind × operand kind × operator × shape relation × which side '
+        'holds no entry, emptied by cancellation / `*= 0` / `x -= x` / clear() / `x[:] = 0` in rotation); then 2400 random '
+        'histories of ≤30 operations generated adaptively on the real objects (history j from Random(seed, j)); at every '
+        '`toarray` the public conversion / query / constructor methods that are not protocol operations (to_flat_array, '
+        'from_flat_array, tolist, astype, nonzero_*, positive_/negative_*, from_dict / from_set / from_rows / from_shape, '
+        'sparse(), argmax … dot) are compared with NumPy on the dense image (tags probe:*); a Python-only stream (about 500 '
+        'cases, tag stream:py, no Lean counterpart) judges binary64 values of extreme and inexact magnitude bit for bit '
+        'against NumPy (underflow, overflow, rounding), negative positions, empty and repeated selections and two index forms '
+        'the code rejects; the thorough tier is exhaustive for pairs of '
         'vectors of size ≤3 over {0, a, −a, 1/2} (+, −, ×, comparisons; ÷ over {0, ±2, 1/2}) and for pairs of logical '
         'vectors of size ≤3 (every operator), binary and in place, sparse and dense operand; a case is non-trivial '
         'when at least one operation returned or left a non-zero array; distinct = distinct op sequences')
 ASSUMPTIONS = [
-    'values are exact rationals in the model; the generators keep every stored value n/2^e with |n|<2^24, e≤24 so '
-    'that each binary64 operation of the implementation is exact (float underflow/rounding, DESIGN §8 #24, is outside)',
+    'values are exact rationals in the model; the generators of the model stream keep every stored value n/2^e with '
+    '|n|<2^24, e≤24 so that each binary64 operation of the implementation is exact; float underflow / overflow / rounding is '
+    'judged by the Python-only float stream against NumPy bit for bit (oracle only: the Lean model has no floats)',
     'dtype is not compared, only values and shapes (True == 1.0), as the existing tests do',
     'the order of dict/set entries is not compared (sorted before comparing)',
     'exception classes are compared as rejected / readonly / zerodiv; division by zero follows the code '
@@ -40,8 +48,15 @@ ASSUMPTIONS = [
     'SparseArray) are dropped before NumPy is consulted, as `reduce_ndim` does by design (tests compare `sv + [[2]]` with `arr + [[2]]`)',
     'operations NumPy refuses for dtype reasons (boolean subtract / negative, float into a boolean array in place) have no '
     'reference: only the invariant and the frame are judged there',
-    'negative indices, slices with negative bounds, zero-size operands, empty row selections, a row index twice in one fancy '
-    'index, and the target (or an array sharing its rows) as the value of its own fancy assignment are not generated',
+    'negative indices, slices with negative bounds, empty row selections and a row index twice in one fancy index are not '
+    'in the model (natural-number positions, non-empty row lists): they are generated in the Python-only stream and judged '
+    'by the oracle alone; there the code FAILS the property (listed findings negative-index-not-wrapped, '
+    'empty-selection-loses-shape, duplicate-row-selection-aliased); zero-size operands and the target (or an array sharing '
+    'its rows) as the value of its own fancy assignment are not generated at all',
+    '`sa[a:b, :] = <2-d value>` and `sa_bool[[rows], col] = value` raise although NumPy accepts them (listed findings with '
+    'proposed fixes C09-13 / C09-14): kept out of the model stream, exercised in the Python-only stream',
+    'after a ZeroDivisionError inside an in-place operator the target is half-updated by design of the loop; the case ends '
+    'there (`chg=?`) and the partial state is not judged',
     'after an operation of one of the known "size is not strict" classes the object is not used any more (both sides answer skip=nonwf)',
     'reflected operators are exercised with Python numbers and lists on the left (an ndarray on the left makes NumPy '
     'iterate the sparse object and never reaches sparse.py operators)',
@@ -75,7 +90,11 @@ def budget(tier):
 # --------------------------------------------------------------------------
 
 def fr(x) -> str:
-    return frac(float(x))
+    x = float(x)
+    if not math.isfinite(x): return 'nan' if x != x else ('inf' if x > 0 else '-inf')
+    s = frac(x)
+    # values of the float stream (never sent to the Lean driver): the shortest decimal that reads back as the same binary64
+    return s if len(s) <= 40 else repr(x)
 
 
 def lit_token(kind, ty, shape, data):
@@ -163,9 +182,11 @@ def is_sparse(o):
 
 
 class World:
-    def __init__(self):
+    def __init__(self, float_mode=False):
         self.objs = []
         self.ids = {}
+        self.float_mode = float_mode      # the float stream: inf / nan are compared with NumPy's, not an invariant failure
+        self.tags = set()
 
     def reg(self, o):
         if id(o) in self.ids: return self.ids[id(o)]
@@ -200,7 +221,7 @@ class World:
         if o.__class__ is SV:
             for k, v in o.dct.items():
                 if v == 0: return 'stored-zero'
-                if not (v == v and abs(v) != float('inf')): return 'stored-nonfinite'
+                if not (v == v and abs(v) != float('inf')) and not self.float_mode: return 'stored-nonfinite'
                 if not (0 <= k < o.size): return 'key-out-of-range'
         elif o.__class__ is SLV:
             for k in o.set:
@@ -348,22 +369,24 @@ def apply(W: World, line: str):
             f = lambda: fn(a, b)
             da, db = D(a), (D(b) if is_sparse(b) else strip1(b))
             np_f = (lambda: fn(da, db)) if da is not None and db is not None else 'undef'
-            info = dict(op=t[1], a=a, b=b)
+            info = dict(op=t[1], a=a, b=b, da=da, db=db, xy=(da, db))
         elif k == 'rbin':
             b, a = parse_lit(t[2]), W.ref(t[3]); fn = BINOPS[t[1]]
             f = lambda: fn(b, a)
             da = D(a)
             np_f = (lambda: fn(np.asarray(b), da)) if da is not None else 'undef'
-            info = dict(op=t[1], a=a, b=b)
+            info = dict(op=t[1], a=a, b=b, xy=(np.asarray(b), da))
         elif k == 'ibin':
             a, b = W.ref(t[2]), W.operand(t[3]); target = W.ids[id(a)]
             f = lambda: ibin_apply(t[1], a, b)
             da, db = D(a), strip1(D(b))
             if da is None or db is None: np_f = 'undef'
             else:
+                da0 = np.array(da, copy=True)
                 da = np.array(da, copy=True)
                 np_f = lambda: ibin_apply(t[1], da, db)
             info = dict(op=t[1], a=a, b=b)
+            if da is not None and db is not None: info.update(da=da0, db=db, xy=(da0, db))
         elif k == 'neg':
             a = W.ref(t[1]); f = lambda: -a; da = D(a); np_f = (lambda: -da) if da is not None else 'undef'
         elif k == 'abs':
@@ -385,7 +408,7 @@ def apply(W: World, line: str):
                 def np_f():
                     da[idx] = dv
                     return da
-            info = dict(a=a, idx=idx, v=v)
+            info = dict(a=a, idx=idx, v=v, dv=dv)
         elif k == 'red':
             a = W.ref(t[2]); axis = None if t[3] == '_' else int(t[3]); kd = t[4] == '1'
             f = lambda: getattr(a, t[1])(axis=axis, keepdims=kd)
@@ -483,6 +506,8 @@ def apply(W: World, line: str):
     if k == 'red' and t[1] == 'mean': answer += ' | ~'
 
     failures = oracle(W, line, t, err, value, npval, nperr, np_f is not None, target, changed, fresh, info, before)
+    if k == 'toarray' and err is None and W.wf_failure(W.ref(t[1])) is None:
+        failures += probe_methods(W, W.ref(t[1]), line)
     dead = (err == 'zerodiv' and k == 'ibin') or (err or '').startswith('crash:')
     return answer, failures, dead
 
@@ -558,6 +583,83 @@ def out_of_range_index(idx, n):
     return bool(((a < 0) | (a >= n)).any()) if a.size else False
 
 
+def shape_of_obj(o):
+    return (len(o.rows), o.vector_size) if o.__class__ is SA else (o.size,)
+
+
+def selection_shape(idx, shape):
+    """shape of what NumPy selects with `idx` in an array of that shape; None if NumPy rejects the index"""
+    try: return np.empty(shape)[idx].shape
+    except Exception: return None
+
+
+def has_negative(idx):
+    if isinstance(idx, tuple): return any(has_negative(i) for i in idx)
+    if isinstance(idx, slice): return any(x is not None and x < 0 for x in (idx.start, idx.stop))
+    if isinstance(idx, (int, np.integer)): return idx < 0
+    a = np.asarray(idx)
+    return a.dtype != bool and a.size > 0 and bool((a < 0).any())
+
+
+def column_part(idx):
+    return idx[1] if isinstance(idx, tuple) and len(idx) == 2 else None
+
+
+def same_as_documented(img, e):
+    """equal to the recomputed documented result; where that is 0/0 (nan) the code gives 0 by convention (pinned by tests)"""
+    if e is None or img is None: return False
+    a, b = np.asarray(img), np.asarray(e)
+    if a.dtype == object or b.dtype == object or a.shape != b.shape: return False
+    a, b = a.astype(float), b.astype(float)
+    return bool((((a == b) & np.isfinite(b)) | (np.isnan(b) & (a == 0))).all())
+
+
+def truncated_rows_expected(k, op, da, db):
+    """what the documented row-wise `zip` gives for operands with different numbers of rows: the operator on the common
+    rows; for in-place operators the other rows of the target are unchanged.  None if that cannot be computed."""
+    try:
+        da, db = np.asarray(da), np.asarray(db)
+        if da.ndim != 2 or db.ndim != 2: return None
+        n = min(da.shape[0], db.shape[0])
+        with np.errstate(all='ignore'):
+            if k == 'bin': return BINOPS[op](da[:n], db[:n])
+            out = np.array(da, copy=True)
+            top = np.array(da[:n], copy=True)
+            out[:n] = ibin_apply(op, top, db[:n])
+            return out
+    except Exception:
+        return None
+
+
+def underflow_only(W, obj, info):
+    """every stored zero of `obj` sits where the exact result is non-zero but rounds to zero in binary64
+    (|x| ≤ 2^-1075): the documented float-level deviation and nothing else"""
+    if 'xy' not in info or info.get('op') not in ('add', 'sub', 'mul', 'truediv'): return False
+    x, y = info['xy']
+    if x is None or y is None: return False
+    try:
+        X, Y = np.broadcast_arrays(np.asarray(x, dtype=float), np.asarray(y, dtype=float))
+    except Exception:
+        return False
+    if not is_sparse(obj): return False
+    rows = obj.rows if obj.__class__ is SA else [obj]
+    if X.ndim == 1: X, Y = X[None, :], Y[None, :]
+    if X.ndim != 2 or X.shape[0] != len(rows): return False
+    tiny = Fraction(1, 2 ** 1075)
+    f = {'add': lambda a, b: a + b, 'sub': lambda a, b: a - b, 'mul': lambda a, b: a * b,
+         'truediv': lambda a, b: a / b if b else None}[info['op']]
+    found = False
+    for r, xr, yr in zip(rows, X, Y):
+        if r.__class__ is not SV: continue
+        for j, v in r.dct.items():
+            if v != 0: continue
+            if not (0 <= j < len(xr)) or not (math.isfinite(xr[j]) and math.isfinite(yr[j])): return False
+            e = f(Fraction(float(xr[j])), Fraction(float(yr[j])))
+            if e is None or e == 0 or abs(e) > tiny: return False
+            found = True
+    return found
+
+
 def oracle(W, line, t, err, value, npval, nperr, has_np, target, changed, fresh, info, before):
     k = t[0]
     fails = []
@@ -592,15 +694,32 @@ def oracle(W, line, t, err, value, npval, nperr, has_np, target, changed, fresh,
                 break
     # 2. representation invariant of everything touched or created
     known_oob = False
-    if k in ('set', 'get') and 'idx' in info and info['a'].__class__ in (SV, SLV):
-        known_oob = out_of_range_index(info['idx'], info['a'].size)
+    sel = vshape = None
+    negidx = False
+    if k in ('set', 'get') and 'idx' in info:
+        a_ = info['a']
+        negidx = has_negative(info['idx'])
+        if a_.__class__ in (SV, SLV):
+            known_oob = out_of_range_index(info['idx'], a_.size)
+        elif a_.__class__ is SA and column_part(info['idx']) is not None:
+            known_oob = out_of_range_index(column_part(info['idx']), a_.vector_size)
+        sel = selection_shape(info['idx'], shape_of_obj(a_))
+        if k == 'set' and info.get('dv') is not None:
+            try: vshape = np.shape(info['dv'])
+            except Exception: vshape = None
+    # the value of an assignment is longer than what the index selects (the documented `enumerate` / `zip` without check)
+    overlong = bool(k == 'set' and sel is not None and vshape and len(vshape) <= 2 and vshape[-1] > (sel[-1] if sel else 1))
     for i in list(changed) + list(fresh):
         w = W.wf_failure(W.objs[i])
         if w:
-            if w == 'key-out-of-range' and k == 'set':
+            if w == 'key-out-of-range' and k == 'set' and (known_oob or overlong) and not negidx:
                 fail('setitem-out-of-range-or-overlong-stored', f'object @{i} = {W.show(W.objs[i])} holds an index outside its size')
+            elif w == 'stored-zero' and W.float_mode and k in ('bin', 'ibin', 'rbin') \
+                    and underflow_only(W, (W.objs[target] if k == 'ibin' else value), info):
+                fail('float-underflow-stored-zero', f'object @{i} = {W.show(W.objs[i])[:120]} stores a zero where the exact result is '
+                     'non-zero but below the smallest binary64 number')
             else:
-                fail(f'wf:{w}:{opname}', f'object @{i} = {W.show(W.objs[i])}: {w}')
+                fail(f'wf:{w}:{opname}', f'object @{i} = {W.show(W.objs[i])[:200]}: {w}')
             break
 
     # 3. read-only targets reject writes
@@ -625,8 +744,14 @@ def oracle(W, line, t, err, value, npval, nperr, has_np, target, changed, fresh,
                 img = W.dense(value) if is_sparse(value) else value
             if img is None:
                 pass    # reported by the invariant check
-            elif not same_dense(img, npval) and k in ('bin', 'ibin') and info['a'].__class__ is SA and rows_mismatch(info['a'], info['b']):
-                fail('row-count-mismatch-truncated', f'sparse gives {fmt_dense(img)} but NumPy broadcasts to {fmt_dense(npval)}')
+            elif not same_dense(img, npval) and k in ('bin', 'ibin') and info['a'].__class__ is SA and rows_mismatch(info['a'], info['b']) \
+                    and same_as_documented(img, truncated_rows_expected(k, info['op'], info.get('da'), info.get('db'))):
+                fail('row-count-mismatch-truncated', f'sparse gives {fmt_dense(img)} (the operator on the common rows) but NumPy broadcasts to {fmt_dense(npval)}')
+            elif not same_dense(img, npval) and k == 'ibin' and info['a'].__class__ is SA and len({id(r) for r in info['a'].rows}) < len(info['a'].rows):
+                fail('duplicate-row-selection-aliased', f'the target holds the same row object twice: the operator is applied to it twice '
+                     f'({fmt_dense(img)}, NumPy {fmt_dense(npval)})')
+            elif not same_dense(img, npval) and k == 'get' and info['a'].__class__ is SA and np.size(npval) == 0 and np.size(img) == 0:
+                fail('empty-selection-loses-shape', f'an empty selection has shape {np.shape(img)}, NumPy {np.shape(npval)}')
             elif not same_dense(img, npval):
                 fail(f'dense-mismatch:{opname}' + (f':{kinds}' if kinds else ''),
                      f'sparse gives {fmt_dense(img)} but NumPy gives {fmt_dense(npval)}')
@@ -636,7 +761,11 @@ def oracle(W, line, t, err, value, npval, nperr, has_np, target, changed, fresh,
             grown = False
             if k == 'ibin' and tgt.__class__ is SA:
                 grown = any(before[W.ids[id(r)]].split('/')[1] == '1' and r.size != 1 for r in tgt.rows)
-            if k in ('bin', 'ibin') and info['a'].__class__ is SA and rows_mismatch(info['a'], info['b'], k == 'ibin'):
+            def truncated_as_documented():
+                e = truncated_rows_expected(k, info['op'], info.get('da'), info.get('db'))
+                img = W.dense(W.objs[target]) if k == 'ibin' else (W.dense(value) if is_sparse(value) else value)
+                return same_as_documented(img, e)
+            if k in ('bin', 'ibin') and info['a'].__class__ is SA and rows_mismatch(info['a'], info['b'], k == 'ibin') and truncated_as_documented():
                 fail('row-count-mismatch-truncated', 'operands with different numbers of rows are combined row by row up to the '
                      'shorter one (`zip`); NumPy rejects the operation')
             elif grown:
@@ -647,9 +776,14 @@ def oracle(W, line, t, err, value, npval, nperr, has_np, target, changed, fresh,
                      f'to {W.show(W.objs[target])}; NumPy rejects the operation (non-broadcastable output)')
             elif k in ('get', 'set') and known_oob:
                 fail('index-out-of-range-accepted', 'index outside the size is accepted (NumPy raises IndexError)')
-            elif k == 'set':
-                fail('setitem-length-mismatch-accepted', 'value of a different length than the selection is accepted '
-                     '(NumPy raises ValueError)')
+            elif k == 'set' and sel is not None and vshape and len(vshape) <= 2 \
+                    and vshape[-1] != (sel[-1] if sel else 1) and vshape[-1] != 1:
+                fail('setitem-length-mismatch-accepted', f'a value of length {vshape[-1]} is accepted for a selection of length '
+                     f'{sel[-1] if sel else 1} (NumPy raises ValueError)')
+            elif k == 'set' and sel is not None and vshape and len(vshape) == 2 and len(sel) == 2 \
+                    and vshape[0] != sel[0] and vshape[0] != 1:
+                fail('row-count-mismatch-truncated', f'a value with {vshape[0]} rows is assigned to {sel[0]} selected rows row by row up to '
+                     'the shorter one (`zip`); NumPy rejects the operation')
             else:
                 fail(f'not-rejected:{opname}' + (f':{kinds}' if kinds else ''), 'NumPy rejects this operation, the sparse code carried it out')
         elif err is None and nperr == 'nonfinite':
@@ -674,12 +808,162 @@ def oracle(W, line, t, err, value, npval, nperr, has_np, target, changed, fresh,
             elif err == 'rejected' and k in ('bin', 'rbin', 'ibin') and is_column(info.get('b')):
                 fail('rejected-valid:column-operand', f'NumPy broadcasts the (m,1) operand to {fmt_dense(npval)}, '
                      f'the sparse code raised {info.get("exc")}')
+            elif err == 'rejected' and k == 'set' and info['a'].__class__ is SA and isinstance(info['idx'], tuple) and len(info['idx']) == 2 \
+                    and isinstance(info['idx'][0], slice) and info['idx'][0] != slice(None) and info['idx'][1] == slice(None) \
+                    and vshape is not None and len(vshape) == 2:
+                fail('rejected-valid:sa-rowslice-allcols-2d-value', f'`sa[a:b, :] = <2-d value>`: NumPy accepts, the sparse code raised {info.get("exc")}')
+            elif err == 'rejected' and k == 'set' and info['a'].__class__ is SA and info['a'].dtype is bool and isinstance(info['idx'], tuple) \
+                    and len(info['idx']) == 2 and np.ndim(info['idx'][0]) == 1 and np.ndim(info['idx'][1]) == 0 \
+                    and not isinstance(info['idx'][0], slice) and 'not iterable' in str(info.get('exc')):
+                fail('rejected-valid:sab-rowlist-intcol', f'`sa_bool[[rows], col] = value`: NumPy accepts, the sparse code raised {info.get("exc")}')
             elif err == 'rejected':
                 fail(f'rejected-valid:{opname}' + (f':{kinds}' if kinds else ''), f'NumPy computes {fmt_dense(npval)}, the sparse code raised {info.get("exc")}')
         elif err == 'rejected' and nperr == 'nonfinite' and k in ('bin', 'rbin', 'ibin') and is_column(info.get('b')):
             fail('rejected-valid:column-operand', f'the sparse code raised {info.get("exc")}')
         elif err == 'rejected' and nperr == 'nonfinite':
             fail(f'rejected-valid:{opname}' + (f':{kinds}' if kinds else ''), f'the sparse code raised {info.get("exc")}')
+    # negative positions are not wrapped by the vector kernels (`sv[-1]` is 0, `sv[-1] = x` stores key -1, `sv[-2:]` is longer
+    # than the vector): one class, recognised by the index alone
+    if negidx and fails:
+        fam = ('dense-mismatch:get', 'dense-mismatch:set', 'wf:key-out-of-range', 'index-out-of-range-accepted', 'not-rejected:get',
+               'not-rejected:set', 'setitem-', 'rejected-valid:get', 'rejected-valid:set')
+        mine = [f for f in fails if f['signature'].startswith(fam)]
+        if mine:
+            fails = [f for f in fails if f not in mine]
+            fails.append({'signature': 'negative-index-not-wrapped', 'what': f'`{line}`: ' + mine[0]['what'].split(': ', 1)[-1]})
+    return fails
+
+
+# ---- public methods that are not operations of the protocol: each is compared with NumPy on the dense image whenever an
+# ---- object is converted (`toarray`), on the object as the history left it
+
+def probe_methods(W, o, line):
+    fails = []
+    cls = {SV: 'SV', SLV: 'SLV', SA: 'SA'}[o.__class__]
+    if o.__class__ is SA and not o.rows: return fails
+    W.tags.add('probe:' + cls)
+    d = o.to_array()
+    boolean = d.dtype == bool
+    def fail(name, what):
+        fails.append({'signature': f'method-mismatch:{cls}.{name}', 'what': f'`{line}` ({W.show(o)[:80]}): {name} {what}'})
+    def call(name, *args, **kw):
+        try: return True, getattr(o, name)(*args, **kw)
+        except Exception as e:
+            fail(name, f'raised {type(e).__name__}: {e}'); return False, None
+    def eq_arr(x, y):
+        try:
+            x, y = np.asarray(x), np.asarray(y)
+            return x.shape == y.shape and bool(np.array_equal(x.astype(float), y.astype(float), equal_nan=True))
+        except Exception:
+            return False
+    def expect(name, got, want, same=None):
+        ok = same(got, want) if same else got == want
+        if not ok: fail(name, f'gives {str(got)[:120]}, NumPy image says {str(want)[:120]}')
+    two = d.ndim == 2
+    nz = np.nonzero(d)
+    pairs = lambda idx: sorted(zip(*[[int(i) for i in x] for x in idx]))
+    def index_eq(got, want):
+        if not isinstance(got, tuple) or len(got) != len(want): return False
+        try: return pairs(got) == pairs(want)
+        except Exception: return False
+    # ---- conversions
+    ok, v = call('tolist');  ok and expect('tolist', v, d.tolist())
+    ok, v = call('to_list'); ok and expect('to_list', v, d.tolist())
+    ok, v = call('to_flat_array'); ok and expect('to_flat_array', v, d.ravel(), eq_arr)
+    buf = np.full(d.size, True if boolean else 7.0)
+    ok, v = call('to_flat_array', buf)
+    if ok:
+        if v is not buf: fail('to_flat_array(arr)', 'does not return the array it was given')
+        expect('to_flat_array(arr)', buf, d.ravel(), eq_arr)
+    for dt in (float, bool):
+        ok, v = call('astype', dt); ok and expect(f'astype({dt.__name__})', v, d.astype(dt), lambda x, y: eq_arr(x, y) and np.asarray(x).dtype == y.dtype)
+        ok, v = call('to_array', dt); ok and expect(f'to_array({dt.__name__})', v, d.astype(dt), lambda x, y: eq_arr(x, y) and np.asarray(x).dtype == y.dtype)
+    # ---- shape attributes
+    for name, want in (('shape', d.shape), ('ndim', d.ndim), ('vector_size', d.shape[-1]), ('size', d.size)):
+        try: got = getattr(o, name)
+        except Exception as e: fail(name, f'raised {type(e).__name__}: {e}'); continue
+        expect(name, got, want)
+    if not two:
+        try:
+            expect('len', len(o), len(d)); expect('iter', [float(x) for x in o], [float(x) for x in d])
+        except Exception as e: fail('iter', f'raised {type(e).__name__}: {e}')
+    else:
+        try: expect('value', o.value, d, eq_arr)
+        except Exception as e: fail('value', f'raised {type(e).__name__}: {e}')
+    # ---- queries
+    for name in ('nonzero_index', 'nonzero'):
+        ok, v = call(name); ok and expect(name, v, nz, index_eq)
+    ok, v = call('positive_index'); ok and expect('positive_index', v, np.nonzero(d > 0), index_eq)
+    ok, v = call('negative_index')
+    if ok:
+        if v is None and cls == 'SLV':
+            fails.append({'signature': 'slv-negative-queries-return-none', 'what': f'`{line}`: SparseLogicalVector.negative_index() returns None (no `return`)'})
+        else: expect('negative_index', v, np.nonzero(d < 0), index_eq)
+    ok, v = call('negative_keys')
+    if ok:
+        if v is None and cls == 'SLV':
+            fails.append({'signature': 'slv-negative-queries-return-none', 'what': f'`{line}`: SparseLogicalVector.negative_keys() returns None (no `return`)'})
+        else: expect('negative_keys', set(int(i) for i in v) if v is not None else None, set(int(i) for i in np.nonzero(d < 0)[-1]))
+    ok, v = call('nonzero_keys'); ok and expect('nonzero_keys', set(int(i) for i in v), set(int(i) for i in nz[-1]))
+    ok, v = call('nonzero_values'); ok and expect('nonzero_values', sorted(float(x) for x in v), sorted(float(x) for x in d[d != 0]))
+    ok, v = call('nonzero_items')
+    if ok:
+        want = {(tuple(int(i) for i in ix) if two else int(ix[0])): float(d[ix]) for ix in zip(*nz)}
+        try: got = {(tuple(int(i) for i in kk) if two else int(kk)): float(x) for kk, x in v}
+        except Exception as e: got = f'{type(e).__name__}: {e}'
+        expect('nonzero_items', got, want)
+    ok, v = call('has_negatives'); ok and expect('has_negatives', bool(v), bool((d < 0).any()))
+    if two:
+        ok, v = call('nonzero_rows'); ok and expect('nonzero_rows', [int(i) for i in v], [int(i) for i in np.nonzero(d.any(axis=1))[0]])
+        ok, v = call('negative_rows'); ok and expect('negative_rows', [int(i) for i in v], [int(i) for i in np.nonzero((d < 0).any(axis=1))[0]])
+    # ---- equality and sharing
+    try:
+        c = o.copy()
+        expect('sparse_equal(copy)', bool(o.sparse_equal(c)), True)
+        expect('sparse_equal(array)', bool(o.sparse_equal(d)), True)
+        if hasattr(o, 'shares_data_with'):
+            expect('shares_data_with(self)', bool(o.shares_data_with(o)), True)
+            expect('shares_data_with(copy)', bool(o.shares_data_with(c)), False)
+        # from_flat_array on a copy: the reversed flat image (keeps zeros where they are not now)
+        flat = np.array(d.ravel()[::-1], copy=True)
+        c.from_flat_array(flat)
+        expect('from_flat_array', c.to_array(), flat.reshape(d.shape), eq_arr)
+        w = W.wf_failure(c)
+        if w: fail('from_flat_array', f'leaves {w}')
+        expect('from_flat_array(original untouched)', o.to_array(), d, eq_arr)
+    except Exception as e:
+        fail('copy/from_flat_array', f'raised {type(e).__name__}: {e}')
+    # ---- constructors
+    try:
+        if cls == 'SV':
+            n = SV.from_dict(dict(o.dct), o.size)
+            expect('from_dict', n.to_array(), d, eq_arr); expect('from_dict.read_only', n.read_only, False)
+            expect('from_size', SV.from_size(o.size).to_array(), np.zeros(o.size), eq_arr)
+        elif cls == 'SLV':
+            expect('from_set', SLV.from_set(set(o.set), o.size).to_array(), d, eq_arr)
+            expect('from_size', SLV.from_size(o.size).to_array(), np.zeros(o.size, dtype=bool), eq_arr)
+        else:
+            expect('from_rows', SA.from_rows([r.copy() for r in o.rows]).to_array(), d, eq_arr)
+            if not boolean: expect('from_shape', SA.from_shape(d.shape).to_array(), np.zeros(d.shape), eq_arr)
+        r = sparse(d)
+        expect('sparse(array)', (r.__class__, r.to_array().tolist()), (o.__class__, d.tolist()))
+        r = sparse(d.tolist())
+        expect('sparse(list)', (r.__class__, r.to_array().tolist()), (o.__class__, d.tolist()))
+    except Exception as e:
+        fail('constructors', f'raised {type(e).__name__}: {e}')
+    # ---- methods passed through to the dense array
+    if two and not boolean:
+        for name, args in (('argmax', ()), ('argmin', ()), ('prod', ()), ('cumsum', ()), ('cumprod', ()), ('round', (1,)), ('clip', (-1.0, 1.0)),
+                           ('dot', (np.ones(d.shape[1]),)), ('trace', ()), ('argsort', ()), ('conj', ())):
+            if not hasattr(o, name) or not hasattr(d, name): continue
+            try:
+                with np.errstate(all='ignore'): want = getattr(d, name)(*args)
+            except Exception: continue
+            try:
+                with np.errstate(all='ignore'): got = getattr(o, name)(*args)
+            except Exception as e:
+                fail(name, f'raised {type(e).__name__}: {e}'); continue
+            expect(name, got, want, eq_arr)
     return fails
 
 
@@ -708,8 +992,8 @@ def zero_tags(W, line):
     return 'both' if za and zb else ('self' if za else 'other')
 
 
-def run_ops(ops, tags=None):
-    W = World()
+def run_ops(ops, tags=None, float_mode=False):
+    W = World(float_mode)
     outs, failures, dead = [], [], False
     nontrivial = False
     for i, line in enumerate(ops):
@@ -735,7 +1019,9 @@ def run_ops(ops, tags=None):
 
 def run_impl(case: Case) -> ImplResult:
     tags = set()
-    W, outs, failures, nontrivial = run_ops(case.ops, tags)
+    py = case.meta.get('stream') == 'py'
+    W, outs, failures, nontrivial = run_ops(case.ops, tags, float_mode=py)
+    tags |= W.tags
     for l, o in zip(case.ops, outs):
         t = l.split(' ')
         tags.add(t[0] + (':' + t[1] if t[0] in ('bin', 'ibin', 'rbin', 'red') else ''))
@@ -746,6 +1032,11 @@ def run_impl(case: Case) -> ImplResult:
     for f in failures:
         if f['signature'] not in seen:
             seen.add(f['signature']); fl.append(f)
+    if py:
+        # the Python-only stream (floats of extreme magnitude, negative positions, empty and repeated selections): the Lean
+        # model has no counterpart; only the oracle on the real objects judges these cases
+        tags.add('stream:py'); tags.add('py:' + case.meta.get('cell', '?').split('/')[0])
+        return ImplResult(model_in=[], outs=[], failures=fl, tags=sorted(tags), nontrivial=(tuple(case.ops) if nontrivial else None))
     return ImplResult(model_in=list(case.ops), outs=outs, failures=fl, tags=sorted(tags),
                       nontrivial=(tuple(case.ops) if nontrivial else None))
 
@@ -1745,10 +2036,111 @@ def exhaustive_cases(a=3.0):
         yield i, u, ops
 
 
+FLOATS = [1e-200, -1e-200, 1e-300, 5e-324, 2.2250738585072014e-308, 1e-160, 1e200, -1e200, 1e308, -1e308, 1.7976931348623157e308,
+          0.1, 0.3, 1.0 / 3.0, -0.7, 1.0, 2.0, 3.0, 1e16, 1.0 + 2.0 ** -52]
+
+
+def py_stream_cases(rng):
+    """cases judged by the oracle on the real objects only (no Lean counterpart):
+    float/…  binary64 values of extreme and inexact magnitude (underflow, overflow, rounding) under the element-wise operators,
+             compared bit for bit with NumPy; a stored zero or a lost entry is an invariant failure;
+    neg/…    negative positions and slice bounds; empty/… empty selections; dup/… the same row twice in a selection;
+    form/…   index forms the code rejects although NumPy accepts them"""
+    cases = []
+    def add(cell, ops): cases.append(Case(ops, {'kind': 'py', 'stream': 'py', 'cell': cell}))
+    def fvals(k, zero_p=0.25, nozero=False):
+        return [0.0 if (not nozero and rng.random() < zero_p) else rng.choice(FLOATS) for _ in range(k)]
+    # ---- float stream
+    for op in ARITH:
+        for ok in ('Pf', 'Nf', 'list', 'nd', 'SV', 'SA', 'mat'):
+            for inplace in (False, True):
+                for target in ('SV', 'SA'):
+                    for rep in range(3):
+                        n = rng.choice([2, 3, 4]); m = 2
+                        B = _Build()
+                        t = B.vec('f', fvals(n)) if target == 'SV' else B.mat('f', m, n, fvals(m * n))
+                        nz = op == 'truediv'
+                        if ok in ('Pf', 'Nf'): b = lit_token(ok[0], 'f', [], fvals(1, nozero=True))
+                        elif ok == 'list': b = lit_token('P', 'f', [n], fvals(n, nozero=nz))
+                        elif ok == 'nd': b = lit_token('N', 'f', [n], fvals(n, nozero=nz))
+                        elif ok == 'mat': b = lit_token('P', 'f', [m, n], fvals(m * n, nozero=nz))
+                        elif ok == 'SV': b = f"@{B.vec('f', fvals(n, nozero=nz))}"
+                        else: b = f"@{B.mat('f', m, n, fvals(m * n, nozero=nz))}"
+                        if inplace and target == 'SV' and ok in ('SA', 'mat'): continue
+                        B.ops += [f'{"ibin" if inplace else "bin"} {op} @{t} {b}', f'toarray @{t}']
+                        add(f'float/{target}/{"i" if inplace else ""}{op}/{ok}', B.ops)
+    for op in ARITH + CMP:
+        for rep in range(3):
+            n = rng.choice([2, 3])
+            add(f'float/r{op}', ['new ' + lit_token('P', 'f', [n], fvals(n, nozero=(op == 'truediv'))),
+                                 f'rbin {op} {lit_token("P", "f", [], fvals(1, nozero=True))} @0'])
+            add(f'float/{op}/cmp-or-chain', ['new ' + lit_token('P', 'f', [n], fvals(n)), 'new ' + lit_token('N', 'f', [n], fvals(n, nozero=(op == 'truediv'))),
+                                             f'bin {op} @0 @1', 'neg @0', 'abs @1', 'red max @0 _ 0', 'red min @1 _ 0', 'copy @0', 'toarray @1'])
+    for rep in range(12):
+        n = rng.choice([3, 4]); v = fvals(n)
+        add('float/getset', ['new ' + lit_token('P', 'f', [n], v), f'get @0 i{rng.randrange(n)}', f'set @0 i{rng.randrange(n)} {lit_token("P", "f", [], fvals(1))}',
+                             f'set @0 s_:_:_ {lit_token("N", "f", [n], fvals(n))}', 'toarray @0', 'mixfrom @0 @0', 'toarray @0'])
+    # ---- negative positions
+    for tk, new in (('SV', 'new Pf4:1,0,2,3'), ('SLV', 'new Pb4:1,0,1,1'), ('SA', 'new Pf3x4:1,0,2,3,0,0,5,6,7,8,0,9'), ('SAb', 'new Pb3x4:1,0,1,1,0,0,1,0,1,1,0,1')):
+        t = 0 if tk in ('SV', 'SLV') else 3
+        val = 'Pb:1' if tk in ('SLV', 'SAb') else 'Pf:7'
+        forms = ['i-1', 'i-4', 's-2:_:_', 's_:-1:_', 's-3:-1:_', 'f0,-1', 'F-1,-2']
+        if t: forms = ['i-1', 's-2:_:_', 'f0,-1', 'i0|i-1', 'i-1|i0', 's_:_:_|i-1', 'i1|s-2:_:_', 's_:_:_|f0,-1', 'f0,-1|i1', 'f0,1|f-1,-2']
+        for form in forms:
+            add(f'neg/{tk}/get/{form}', [new, f'get @{t} {form}'])
+            add(f'neg/{tk}/set/{form}', [new, f'set @{t} {form} {val}', f'toarray @{t}'])
+    # ---- empty selections
+    for new, t in (('new Pf3x4:1,0,2,3,0,0,5,6,7,8,0,9', 3), ('new Pb3x4:1,0,1,1,0,0,1,0,1,1,0,1', 3)):
+        for form in ('m0,0,0', 'M0,0,0', 's1:1:_', 's3:_:_', 'm0,0,0|s_:_:_', 's1:1:_|s_:_:_', 's_:_:_|s2:2:_'):
+            add(f'empty/get/{form}', [new, f'get @{t} {form}'])
+            add(f'empty/set/{form}', [new, f'set @{t} {form} {"Pb:1" if "Pb" in new else "Pf:5"}', f'toarray @{t}'])
+    for form in ('s1:1:_', 'm0,0,0', 'M0,0,0', 's3:_:_'):
+        add(f'empty/SV/{form}', ['new Pf3:1,0,2', f'get @0 {form}', f'set @0 {form} Pf:5', 'toarray @0'])
+    # ---- the same row twice in a selection
+    for op in ('add', 'mul', 'sub'):
+        add(f'dup/i{op}', ['new Pf2x2:1,2,3,4', 'get @2 f0,0', f'ibin {op} @3 Pf:2', 'toarray @2'])
+        add(f'dup/i{op}/F', ['new Pf3x2:1,2,3,4,5,6', 'get @3 F2,0,2', f'ibin {op} @4 Pf2:2,4', 'toarray @3'])
+    add('dup/get', ['new Pf2x2:1,2,3,4', 'get @2 f0,0', 'toarray @3'])
+    # ---- index forms rejected although NumPy accepts them
+    for form, v in (('s0:2:_|s_:_:_', 'Pf2x4:1,2,3,4,5,6,7,8'), ('s1:3:_|s_:_:_', 'Nf2x4:1,0,3,0,5,0,7,0'), ('s0:1:_|s_:_:_', 'Pf1x4:1,2,3,4'),
+                    ('s0:2:_|s_:_:_', 'Pf4:1,2,3,4'), ('s0:2:_|s_:_:_', 'Pf:3')):
+        add(f'form/rowslice-allcols/{v.split(":")[0]}', ['new Pf3x4:1,0,2,3,0,0,5,6,7,8,0,9', f'set @3 {form} {v}', 'toarray @3'])
+    for form, v in (('f0,2|i1', 'Pb:1'), ('F0,2|i1', 'Pb:0'), ('f0,2|i1', 'Pb2:1,0'), ('f0,1,2|f3,2,1', 'Pb:1')):
+        add(f'form/bool-rowlist-intcol/{form}/{v}', ['new Pb3x4:1,0,1,1,0,0,1,0,1,1,0,1', f'set @3 {form} {v}', 'toarray @3'])
+    return cases
+
+
+def run_seed():
+    """the seed of this run: the same number in every worker (the `rng` handed to `generate` differs per worker, so
+    nothing that must be the same for all workers may be drawn from it)"""
+    import os, sys
+    argv = sys.argv
+    for i, a in enumerate(argv):
+        if a == '--seed' and i + 1 < len(argv):
+            try: return int(argv[i + 1])
+            except ValueError: pass
+        if a.startswith('--seed='):
+            try: return int(a[7:])
+            except ValueError: pass
+    try: return int(os.environ.get('VERIF_SEED', '20260927'))
+    except ValueError: return 20260927
+
+
+def full_grid(seed):
+    """the whole grid of one run: one list, the same in every worker and for every number of workers"""
+    cases = grid_cases(random.Random(f'C09/grid/{seed}'))
+    for j, c in enumerate(cases): c.meta['j'] = j
+    return cases
+
+
 def generate(rng, tier, index, nworkers):
+    """case j of the run goes to worker j mod nworkers; which cases exist depends on (tier, seed) only, never on the
+    worker index, the number of workers or the machine"""
     b = budget(tier)
-    grid = grid_cases(rng)
-    for j, c in enumerate(grid):
+    seed = run_seed()
+    for j, c in enumerate(full_grid(seed)):
+        if j % nworkers == index: yield c
+    for j, c in enumerate(py_stream_cases(random.Random(f'C09/py/{seed}'))):
         if j % nworkers == index: yield c
     if tier == 'thorough':
         alpha = [0.0, 3.0, -3.0, 0.5]
@@ -1793,11 +2185,52 @@ def generate(rng, tier, index, nworkers):
                 ops.append(f'bin {op} @0 @1')
                 ops.append(f'bin {op} @0 {lit_token("N", "b", [len(v)], v)}')
             yield Case(ops, {'kind': 'exhaustive'})
-    n = max(1, b['cases'] // nworkers)
-    for j in range(n):
-        r = rng.random()
-        mode = rng.choices(['vector', 'array', 'logical', 'mixed'], [35, 30, 15, 20])[0]
-        yield gen_history(rng, 8 if r < 0.3 else (20 if r < 0.7 else 30), mode)
+    for j in range(b['cases']):
+        if j % nworkers != index: continue
+        hr = random.Random(f'C09/history/{seed}/{j}')
+        r = hr.random()
+        mode = hr.choices(['vector', 'array', 'logical', 'mixed'], [35, 30, 15, 20])[0]
+        yield gen_history(hr, 8 if r < 0.3 else (20 if r < 0.7 else 30), mode)
+
+
+def extra_evidence(executed, model_outs):
+    """which grid cells ran (every cell of the run's grid must have been executed by some worker)"""
+    expected = [c.meta['cell'] for c in full_grid(run_seed())]
+    ran = {}
+    for c, _ in executed:
+        if c.meta.get('kind') == 'grid': ran[c.meta['cell']] = ran.get(c.meta['cell'], 0) + 1
+    want = {}
+    for x in expected: want[x] = want.get(x, 0) + 1
+    missing = sorted(x for x in want if ran.get(x, 0) < want[x])
+    return {'grid_cases_expected': len(expected), 'grid_cases_executed': sum(ran.values()),
+            'grid_cells_distinct': len(want), 'grid_cells_missing': missing,
+            'py_stream_cases': sum(1 for c, _ in executed if c.meta.get('stream') == 'py')}
+
+
+def search(case, rng, seconds):
+    """the correspondence broke at `case`: look for an input near it on which the real code fails the property itself
+    (an oracle failure that is not one of the listed findings)"""
+    import time
+    from harness import core
+    known = {k['signature'] for k in core.load_known(PID)[0]}
+    def failing(c):
+        try: r = run_impl(c)
+        except Exception: return False
+        return any(f['signature'] not in known for f in r.failures)
+    if failing(case): return case
+    t0 = time.time()
+    kinds = [l.split(' ')[0] + ' ' + l.split(' ')[1] for l in case.ops if l.split(' ')[0] in ('bin', 'ibin', 'rbin', 'red') and ' ' in l]
+    heads = {l.split(' ')[0] for l in case.ops}
+    mode = 'mixed'
+    while time.time() - t0 < seconds:
+        c = gen_history(rng, 20, mode)
+        # prefer histories that use the operations of the broken case
+        if kinds and not any(k in ' '.join(c.ops) for k in kinds) and rng.random() < 0.8: continue
+        if not kinds and not (heads & {l.split(' ')[0] for l in c.ops}) and rng.random() < 0.8: continue
+        if failing(c): return c
+    return None
+
+
 
 
 def corpus():
